@@ -340,7 +340,13 @@ func TestVerifC18_IncrementalForeground(t *testing.T) {
 				}
 			}
 		}()
-		<-mutDone
+		mutTimer := time.NewTimer(6 * verifC18StopTimeout)
+		select {
+		case <-mutDone:
+			mutTimer.Stop()
+		case <-mutTimer.C:
+			t.Fatalf("[stop-timeout] %s seed=%d round=%d: the foreground mutator (%d operations) did not finish within %v (deadlock with the background goroutine?)", name, seed, round, nOps, 6*verifC18StopTimeout)
+		}
 
 		if p, err := bt.GetIncrementalRebalancingProgress(); err == nil {
 			bgNodes += int64(p.NodesRebalanced)
